@@ -9,7 +9,7 @@ from   pyflyby._importclns      import ImportSet, NoSuchImportError
 from   pyflyby._importdb        import ImportDB
 from   pyflyby._importstmt      import ImportFormatParams, ImportStatement
 from   pyflyby._log             import logger
-from   pyflyby._parse           import PythonBlock
+from   pyflyby._parse           import PythonBlock, _ast_str_literal_value
 from   pyflyby._util            import ImportPathCtx, Inf, NullCtx, memoize
 import re
 
@@ -228,23 +228,32 @@ class SourceToSourceFileImportsTransformation(SourceToSourceTransformationBase):
             return
         # Get the "statements" in the first block.
         statements = self.blocks[0].input.statements
-        # Find the insertion point.
+        # Find the insertion point: after the leading comments and the module
+        # docstring.  Only the first statement can be the docstring; later
+        # string (or any bytes) literals are ordinary statements, which a
+        # ``__future__`` import must not follow.
+        docstring_allowed = True
         for idx, statement in enumerate(statements):
-            if not statement.is_comment_or_blank_or_string_literal:
-                if idx == 0:
-                    # First block starts with a noncomment, so insert before
-                    # it.
-                    self.blocks[0:0] = blocks
-                else:
-                    # Found a non-comment after comment, so break it up and
-                    # insert in the middle.
-                    self.blocks[:1] = (
-                        [SourceToSourceTransformation(
-                            PythonBlock.concatenate(statements[:idx]))] +
-                        blocks +
-                        [SourceToSourceTransformation(
-                            PythonBlock.concatenate(statements[idx:]))])
-                break
+            if statement.is_comment_or_blank:
+                continue
+            if docstring_allowed and isinstance(
+                    _ast_str_literal_value(statement.ast_node), str):
+                docstring_allowed = False
+                continue
+            if idx == 0:
+                # First block starts with a noncomment, so insert before
+                # it.
+                self.blocks[0:0] = blocks
+            else:
+                # Found a non-comment after comment, so break it up and
+                # insert in the middle.
+                self.blocks[:1] = (
+                    [SourceToSourceTransformation(
+                        PythonBlock.concatenate(statements[:idx]))] +
+                    blocks +
+                    [SourceToSourceTransformation(
+                        PythonBlock.concatenate(statements[idx:]))])
+            break
         else:
             # First block is entirely comments, so just insert after it.
             text = self.blocks[0].input.text.joined
